@@ -353,6 +353,23 @@ def r4_bencode_bounds_discipline(ctx):
     t = bs.text()
     ok = "(slice data 0 n)" in t and "(slice data n)" in t and "(int (slice data 0 i))" in t
     ctx.ob("C19.R4", f"{BEN}::decode-byte-string::payload (slice data 0 n), remainder (slice data n)", BEN, bs.line, ok, "" if ok else "payload and remainder are not cut at the same declared length")
+    # (d') an empty payload is only ever produced for a declared length of zero: a literal empty byte string
+    # (or an `or` fallback around the payload slice) anywhere else turns "the payload has not arrived yet"
+    # into a complete, empty message
+    empties = [f for f in L.walk(bs) if f.text() in ('#b ""', "#b \"\"")]
+    for e in empties:
+        guarded = False
+        node = e
+        for a in L.ancestors(e):
+            if L.head(a) == "if" and len(a.items) >= 3 and a.items[1].text() in ("(= n 0)", "(= 0 n)", "(zero? n)") and any(x is node or x is e for x in L.walk(a.items[2])):
+                guarded = True
+            node = a
+        ctx.ob("C19.R4", f"{BEN}::decode-byte-string::empty payload only for length 0 (line {e.line})", BEN, e.line, guarded,
+               "" if guarded else "an empty byte string is produced without the declared length being 0: a chunk that ends right after the `:` of `4:` is decoded as a complete empty string and the length prefix is lost",
+               witness="(decode-all #b \"i1e4:\" {}) must return [[1] #b \"4:\"]")
+    fallback = [f for f in L.walk(bs) if L.head(f) == "or" and any("slice" in x.text() for x in f.items[1:2])]
+    ctx.ob("C19.R4", f"{BEN}::decode-byte-string::the payload slice has no fallback value", BEN, bs.line, not fallback,
+           "" if not fallback else f"`{fallback[0].text()[:60]}` substitutes a value when the payload is missing")
     # (e) decode: try decode* catch everything -> [nil data] with the parameter
     dc = defs.get("decode")
     params, body = L.fn_arities(dc)[0]
